@@ -162,6 +162,7 @@ def _calc(ctx, opf, system, label):
         ctx.note("degenerate-geometry-excluded")
         raise core._Abort()
     except Exception as e:
+        core.reraise_if_proxy_limitation(e)
         return None, e
     ok = all(arr is cur and all(x is y for x, y in zip(vals, arr.flat)) for (arr, vals), cur in zip(before, (system.pos, system.vel)))
     if boxb is not None:
